@@ -35,7 +35,7 @@ def builtin_fn(ex, st, nm, e, cx, k):
                 v = SV(t.args[0], v.z)
                 t = v.ty
             if t.kind == 'list':
-                return k(st, SV(INT, z3.Length(ex.list_content(st, v))))
+                return k(st, SV(INT, ex.list_len(st, v)))
             if t.kind in ('seq', 'str'):
                 return k(st, SV(INT, z3.Length(v.z)))
             if t.kind in ('dict', 'set', 'mset'):
@@ -114,35 +114,28 @@ def builtin_fn(ex, st, nm, e, cx, k):
         return ex.ev_list(st, args, cx, f)
     if nm == 'bytearray':
         if not args:
-            s2, r = ex.alloc(st, T.BYTEARRAY, 'ba')
-            return k(ex.set_list_content(s2, r, z3.Empty(z3.SeqSort(z3.IntSort()))), r)
+            s2, r = ex.new_list(st, T.BYTEARRAY, I(0), ex.empty_arr(INT), 'ba')
+            return k(s2, r)
 
         def f(st, v):
             if v.ty.kind in ('int', 'bool'):
                 n = ex.coerce(v, INT).z
-                s2, r = ex.alloc(st, T.BYTEARRAY, 'ba')
-                ns = z3.simplify(n)
-                if z3.is_int_value(ns) and 0 <= ns.as_long() <= 16:
-                    c = z3.Empty(z3.SeqSort(z3.IntSort()))
-                    for _ in range(ns.as_long()):
-                        c = z3.Concat(c, z3.Unit(I(0)))
-                    return k(ex.set_list_content(s2, r, z3.simplify(c)), r)
-                c = ex.fresh_z(z3.SeqSort(z3.IntSort()), 'zeros')
-                j = z3.Int('j!ba')
-                s2 = s2.assume(z3.Length(c) == n, z3.ForAll([j], z3.Implies(z3.And(j >= 0, j < n), c[j] == 0)))
-                return ex.guard_raise(s2, cx, n < 0, 'ValueError', e,
-                                      lambda s: k(ex.set_list_content(s, r, c), r), why='bytearray(negative)')
+                return ex.guard_raise(st, cx, n < 0, 'ValueError', e,
+                                      lambda s: (lambda sr: k(sr[0], sr[1]))(ex.new_list(s, T.BYTEARRAY, n, ex.empty_arr(INT), 'ba')),
+                                      why='bytearray(negative)')
             if v.ty.kind == 'list':
                 # bytearray(list of ints): every element must be in range(256)
-                content = ex.list_content(st, v)
-                s2, r = ex.alloc(st, T.BYTEARRAY, 'ba')
+                n = ex.list_len(st, v)
+                arr = ex.list_arr(st, v)
                 j = z3.Int('j!bb')
-                bad = z3.Exists([j], z3.And(j >= 0, j < z3.Length(content), z3.Or(content[j] < 0, content[j] > 255)))
-                return ex.guard_raise(s2, cx, bad, 'ValueError', e,
-                                      lambda s: k(ex.set_list_content(s, r, content), r), why='byte must be in range(0, 256)')
+                bad = z3.Exists([j], z3.And(j >= 0, j < n, z3.Or(z3.Select(arr, j) < 0, z3.Select(arr, j) > 255)))
+                return ex.guard_raise(st, cx, bad, 'ValueError', e,
+                                      lambda s: (lambda sr: k(sr[0], sr[1]))(ex.new_list(s, T.BYTEARRAY, n, arr, 'ba')),
+                                      why='byte must be in range(0, 256)')
             if v.ty.kind == 'seq':
-                s2, r = ex.alloc(st, T.BYTEARRAY, 'ba')
-                return k(ex.set_list_content(s2, r, v.z), r)
+                j = z3.Int('j!bs')
+                s2, r = ex.new_list(st, T.BYTEARRAY, z3.Length(v.z), z3.Lambda([j], v.z[j]), 'ba')
+                return k(s2, r)
             raise VCError(f'bytearray({v.ty!r}) outside subset')
         return ex.ev(st, args[0], cx, f)
     if nm == 'list':
@@ -151,8 +144,8 @@ def builtin_fn(ex, st, nm, e, cx, k):
 
         def f(st, v):
             if v.ty.kind == 'list':
-                s2, r = ex.alloc(st, v.ty, 'lst')
-                return k(ex.set_list_content(s2, r, ex.list_content(st, v)), r)
+                s2, r = ex.new_list(st, v.ty, ex.list_len(st, v), ex.list_arr(st, v))
+                return k(s2, r)
             raise VCError(f'list({v.ty!r}) outside subset')
         return ex.ev(st, args[0], cx, f)
     if nm == 'print':
@@ -160,9 +153,11 @@ def builtin_fn(ex, st, nm, e, cx, k):
     if nm == 'int.from_bytes':
         def f(st, vs):
             b, order = vs[0], vs[1]
-            content = ex.list_content(st, b) if b.ty.kind == 'list' else b.z
+            if b.ty.kind == 'list':
+                fb = ex.uf('from_bytes_arr', z3.ArraySort(z3.IntSort(), z3.IntSort()), z3.IntSort(), z3.StringSort(), z3.IntSort())
+                return k(st, SV(INT, fb(ex.list_arr(st, b), ex.list_len(st, b), order.z)))
             fb = ex.uf('from_bytes', z3.SeqSort(z3.IntSort()), z3.StringSort(), z3.IntSort())
-            return k(st, SV(INT, fb(content, order.z)))
+            return k(st, SV(INT, fb(b.z, order.z)))
         return ex.ev_list(st, list(args) + [kws[x] for x in ('byteorder',) if x in kws], cx, f)
     if nm in ('range', 'enumerate', 'zip', 'reversed', 'sorted', 'set', 'dict', 'tuple', 'sum', 'any', 'all',
               'open', 'reduce', 'super', 'type', 'getattr', 'hash', 'id', 'iter', 'next', 'map', 'filter'):
@@ -209,30 +204,40 @@ def builtin_method(ex, st, obj, mname, args, kwargs, cx, node, k):
     # ---- list / bytearray -----------------------------------------------------------------
     if t.kind == 'list':
         ety = t.args[0]
-        content = ex.list_content(st, obj)
-        n = z3.Length(content)
+        n = ex.list_len(st, obj)
+        arr = ex.list_arr(st, obj)
         is_bytes = (t == T.BYTEARRAY)
+        jv = z3.Int('j!lm')
         if mname == 'append':
             x = ex.coerce(args[0], ety, 'list.append')
 
             def cont(s):
-                return k(ex.set_list_content(s, obj, z3.Concat(content, z3.Unit(x.z))), NONE_SV)
-            if is_bytes and ety.kind == 'int' and getattr(cx, 'bytearray_checks', True) and t is T.BYTEARRAY:
-                pass
+                return k(ex.set_list(s, obj, n + 1, ex.store(arr, n, x.z)), NONE_SV)
+            if is_bytes:
+                return ex.guard_raise(st, cx, z3.Or(x.z < 0, x.z > 255), 'ValueError', node, cont,
+                                      why='byte must be in range(0, 256)')
             return cont(st)
         if mname == 'extend':
             o = args[0]
-            oc = ex.list_content(st, o) if o.ty.kind == 'list' else o.z
-            return k(ex.set_list_content(st, obj, z3.Concat(content, oc)), NONE_SV)
+            on, oat = ex.seq_view(st, o)
+
+            def cont(s):
+                newa = z3.Lambda([jv], z3.If(jv < n, z3.Select(arr, jv), oat(jv - n)))
+                return k(ex.set_list(s, obj, n + on, newa), NONE_SV)
+            if is_bytes and not (o.ty == T.BYTEARRAY):
+                bad = z3.Exists([jv], z3.And(jv >= 0, jv < on, z3.Or(oat(jv) < 0, oat(jv) > 255)))
+                return ex.guard_raise(st, cx, bad, 'ValueError', node, cont, why='byte must be in range(0, 256)')
+            return cont(st)
         if mname == 'insert':
             i = ex.coerce(args[0], INT).z
             x = ex.coerce(args[1], ety, 'list.insert')
             isimp = z3.simplify(i)
             if z3.is_int_value(isimp) and isimp.as_long() == 0:
-                return k(ex.set_list_content(st, obj, z3.Concat(z3.Unit(x.z), content)), NONE_SV)
-            pos = z3.If(i < 0, z3.If(i + n < 0, I(0), i + n), z3.If(i > n, n, i))
-            newc = z3.Concat(z3.SubSeq(content, I(0), pos), z3.Unit(x.z), z3.SubSeq(content, pos, n - pos))
-            return k(ex.set_list_content(st, obj, newc), NONE_SV)
+                pos = I(0)
+            else:
+                pos = z3.If(i < 0, z3.If(i + n < 0, I(0), i + n), z3.If(i > n, n, i))
+            newa = z3.Lambda([jv], z3.If(jv < pos, z3.Select(arr, jv), z3.If(jv == pos, x.z, z3.Select(arr, jv - 1))))
+            return k(ex.set_list(st, obj, n + 1, newa), NONE_SV)
         if mname == 'pop':
             if args:
                 i = ex.coerce(args[0], INT).z
@@ -242,22 +247,23 @@ def builtin_method(ex, st, obj, mname, args, kwargs, cx, node, k):
             pos = z3.If(i < 0, i + n, i)
             if z3.is_int_value(isimp):
                 pos = i if isimp.as_long() >= 0 else i + n
+            if not args:
+                pos = n - 1
 
             def cont(s):
-                newc = z3.Concat(z3.SubSeq(content, I(0), pos), z3.SubSeq(content, pos + 1, n - pos - 1))
-                return k(ex.set_list_content(s, obj, newc), SV(ety, content[pos]))
+                if not args:
+                    newa = arr
+                else:
+                    newa = z3.Lambda([jv], z3.If(jv < pos, z3.Select(arr, jv), z3.Select(arr, jv + 1)))
+                return k(ex.set_list(s, obj, n - 1, newa), SV(ety, ex.select(arr, pos)))
             return ex.guard_raise(st, cx, z3.Or(pos < 0, pos >= n), 'IndexError', node, cont, why='pop from list')
         if mname == 'copy':
-            s2, r = ex.alloc(st, t, 'cpy')
-            return k(ex.set_list_content(s2, r, content), r)
+            s2, r = ex.new_list(st, t, n, arr, 'cpy')
+            return k(s2, r)
         if mname == 'reverse':
-            rv = ex.fresh_z(content.sort(), 'rev')
-            j = z3.Int('j!rev')
-            s2 = st.assume(z3.Length(rv) == n,
-                           z3.ForAll([j], z3.Implies(z3.And(j >= 0, j < n), rv[j] == content[n - 1 - j])))
-            return k(ex.set_list_content(s2, obj, rv), NONE_SV)
+            return k(ex.set_list(st, obj, n, z3.Lambda([jv], z3.Select(arr, n - 1 - jv))), NONE_SV)
         if mname == 'clear':
-            return k(ex.set_list_content(st, obj, z3.Empty(content.sort())), NONE_SV)
+            return k(ex.set_list(st, obj, I(0), arr), NONE_SV)
     # ---- dict -----------------------------------------------------------------------------
     if t.kind == 'dict':
         kt, vt = t.args
@@ -306,8 +312,10 @@ def builtin_method(ex, st, obj, mname, args, kwargs, cx, node, k):
 
 def to_bytes(ex, st, v, args, kwargs, cx, node, k):
     """int.to_bytes(n, byteorder, signed=) -- trusted builtin, axiomatised:
-       raises OverflowError iff the value is outside the n-byte range for that signedness; otherwise the result
-       has length n, every element in 0..255, and  sum_i res[i] * 256**(weight i) == v mod 256**n."""
+       raises ValueError for a negative length / unknown byte order, OverflowError iff the value is outside the
+       n-byte range for that signedness; otherwise a bytes object of length n whose element j is
+       tb_byte(value mod 256**n, n, little?, j) -- the lemma `to_bytes_def` (CPython fact, validated by sampling)
+       states tb_byte(u, n, little, j) == (u div 256**(j if little else n-1-j)) mod 256."""
     n = ex.coerce(args[0], INT).z
     order = kwargs.get('byteorder', args[1] if len(args) > 1 else None)
     signed = kwargs.get('signed', args[2] if len(args) > 2 else SV(BOOL, z3.BoolVal(False)))
@@ -315,18 +323,15 @@ def to_bytes(ex, st, v, args, kwargs, cx, node, k):
     p = ex.pow2(8 * n)
     half = ex.pow2(8 * n - 1)
     overflow = z3.If(sg, z3.Or(v < -half, v >= half), z3.Or(v < 0, v >= p))
-    tb = ex.uf('to_bytes', z3.IntSort(), z3.IntSort(), z3.StringSort(), z3.SeqSort(z3.IntSort()))
-    res = tb(v % p, n, order.z)
+    tb = ex.uf('tb_byte', z3.IntSort(), z3.IntSort(), z3.BoolSort(), z3.IntSort(), z3.IntSort())
 
     def cont(s):
         j = z3.Int('j!tb')
-        byte_at = ex.uf('byte_at', z3.IntSort(), z3.IntSort(), z3.IntSort())  # byte_at(u, m) = (u div 256**m) mod 256
         u = v % p
-        facts = [z3.Length(res) == n,
-                 z3.ForAll([j], z3.Implies(z3.And(j >= 0, j < n),
-                                           z3.And(res[j] >= 0, res[j] <= 255,
-                                                  res[j] == z3.If(order.z == z3.StringVal('little'),
-                                                                  byte_at(u, j), byte_at(u, n - 1 - j)))),
-                           patterns=[res[j]])]
-        return k(s.assume(*facts), SV(T.BYTES, res))
-    return ex.guard_raise(st, cx, z3.Or(n < 0, overflow), 'OverflowError', node, cont, why='int.to_bytes')
+        little = order.z == z3.StringVal('little')
+        s2, r = ex.new_list(s, T.BYTES, n, z3.Lambda([j], tb(u, n, little, j)), 'bytes')
+        return k(s2, r)
+    bad_order = z3.And(order.z != z3.StringVal('little'), order.z != z3.StringVal('big'))
+    return ex.guard_raise(st, cx, z3.Or(n < 0, bad_order), 'ValueError', node,
+                          lambda s0: ex.guard_raise(s0, cx, overflow, 'OverflowError', node, cont, why='int.to_bytes'),
+                          why='int.to_bytes length/byteorder')
